@@ -139,6 +139,8 @@ def gen_curve_item(w, m):
         n = w.randint(2, 8)
         basis = w.choice(["weight", "weight", "molar"])
         comps = [[round(0.05 + 0.9 * (j + w.random() * 0.5) / n, 5), basis] for j in range(n)]
+        if w.random() < 0.25:
+            comps[w.choice([0, -1])][0] = w.choice([0.0, 1.0])        # a curve over the full range ends at a pure component (zero flux of the other one)
         mode = w.choice(["none", "none", "pp", "pt"])
         return {"kind": "curve", "how": "ideal", "membrane": m["dir"], "mixture": m["mixture"], "T": T, "comps": comps,
                 "pt": round(T - w.uniform(55, 85), 2) if mode == "pt" else None,
